@@ -241,6 +241,55 @@ def run(res, f, tier):
                    "a %s node in position %d of a %s node is printed as `%s`, which parses back as %s instead of %s" % (W, h, V, " ".join(toks), got or "a syntax error", want))
                 if len(samples) < 6 and triples % 700 == 3:
                     samples.append({"parent": V, "hole": h, "child": W, "tokens": " ".join(toks), "reparsed": got})
+    # ---- thorough: three-level compositions through exposed renderings (a child whose template starts or ends with
+    # a hole lets the grandchild touch the parent's context).  Only failures not already explained by a failing
+    # two-level obligation are reported.
+    depth3 = 0
+    if tier == "thorough":
+        failed2 = set((V, h, W) for V, h, W, _, _, _ in failing)
+        def exposed_holes(W):
+            els = [e for e in ttempl[W] if e[0] != "text"]
+            out = []
+            if els and els[0][0] == "hole" and els[0][2] == "expr":
+                out.append(els[0][1])
+            if els and els[-1][0] == "hole" and els[-1][2] == "expr" and els[-1][1] not in out:
+                out.append(els[-1][1])
+            return out
+        for V in expr_kinds:
+            for h in holes_of[V]:
+                for W in expr_kinds:
+                    for h2 in exposed_holes(W):
+                        for X in expr_kinds:
+                            if (V, h, W) in failed2 or (W, h2, X) in failed2 or (V, h, X) in failed2:
+                                continue
+                            depth3 += 1
+
+                            def ch(i, p, h=h, W=W, h2=h2, X=X):
+                                if i == "index":
+                                    return "IDENT"
+                                if i == "count":
+                                    return 1
+                                if i == h:
+                                    def inner(j, q):
+                                        if j == "index":
+                                            return "IDENT"
+                                        if j == "count":
+                                            return 1
+                                        if j == h2:
+                                            def inner2(k, r):
+                                                if k == "index":
+                                                    return "IDENT"
+                                                if k == "count":
+                                                    return 1
+                                                return atom(k, r)
+                                            return expand(X, inner2, pos0=q)
+                                        return atom(j, q)
+                                    return expand(W, inner, pos0=p)
+                                return atom(i, p)
+                            toks, want = expand(V, ch)
+                            got = parse(toks)
+                            ob(got == [want], "C16|nest3|%s.%d|%s.%d|%s" % (V, h, W, h2, X),
+                               "%s inside %s (position %d) inside %s (position %d) is printed as `%s`, which parses back as %s instead of %s" % (X, W, h2, V, h, " ".join(toks), got or "a syntax error", want))
     # ---- leaves
     vt = disp[VALUE]
     image_tags = ["String", "Int", "Float", "Decimal", "Bool", "None"]
@@ -336,7 +385,7 @@ def run(res, f, tier):
         "explanation": "47 printer templates of Expr (+10 of Value, 2 of Index) decoded from the MIR of the Display impls; every node kind alone and all %d (parent, hole, child) "
                        "compositions parsed back with the extracted grammar (Earley over sentential forms) and compared with the tree printed; leaf languages and string escaping "
                        "checked by automata against the token table; %d (last token, next character) boundary pairs checked on the lexer DFA" % (triples, len(seen_kc)),
-        "obligations": obligations, "discharged": discharged, "triples": triples, "failing_triples": len(failing), "boundary_pairs": len(seen_kc),
+        "obligations": obligations, "discharged": discharged, "triples": triples, "three_level_compositions": depth3, "failing_triples": len(failing), "boundary_pairs": len(seen_kc),
         "rule": "parse(print(tree)) == tree for all depth-2 compositions; printed leaf language inside its token; no token-boundary extension",
         "samples": samples + [{"parent": a, "hole": b, "child": c, "tokens": d, "reparsed": e, "expected": g_} for a, b, c, d, e, g_ in failing[:6]],
         "exhaustive": True,
